@@ -837,6 +837,12 @@ def _loop_as_comprehension(init, loop):
             and isinstance(s.value.func.value, ast.Name) and s.value.func.value.id == x and len(s.value.args) == 1 and not uses_x(s.value.args[0]):
         # X = []; for ..: X.extend(e)   ==   X = sum([e for ..], [])
         comp = ast.Call(func=ast.Name(id='sum', ctx=ast.Load()), args=[ast.ListComp(elt=s.value.args[0], generators=gens), ast.List(elts=[], ctx=ast.Load())], keywords=[])
+    elif islist and ((isinstance(s, ast.Assign) and len(s.targets) == 1 and isinstance(s.targets[0], ast.Name) and s.targets[0].id == x and isinstance(s.value, ast.BinOp)
+                      and isinstance(s.value.op, ast.Add) and isinstance(s.value.left, ast.Name) and s.value.left.id == x and not uses_x(s.value.right))
+                     or (isinstance(s, ast.AugAssign) and isinstance(s.op, ast.Add) and isinstance(s.target, ast.Name) and s.target.id == x and not uses_x(s.value))):
+        # X = []; for ..: X = X + e  (or X += e)   ==   X = sum([e for ..], [])
+        e_ = s.value.right if isinstance(s, ast.Assign) else s.value
+        comp = ast.Call(func=ast.Name(id='sum', ctx=ast.Load()), args=[ast.ListComp(elt=e_, generators=gens), ast.List(elts=[], ctx=ast.Load())], keywords=[])
     elif isdict and isinstance(s, ast.Assign) and len(s.targets) == 1 and isinstance(s.targets[0], ast.Subscript) and isinstance(s.targets[0].value, ast.Name) \
             and s.targets[0].value.id == x and not uses_x(s.targets[0].slice) and not uses_x(s.value):
         comp = ast.DictComp(key=s.targets[0].slice, value=s.value, generators=gens)
@@ -1344,6 +1350,7 @@ def normalise_repo(trees, use_reference=True, stats=None):
                 if not _settle(fn, r, stats, key):
                     reshape_conditionals(fn, r, stats, key)
                     vote_rename(fn, r, stats, key)
+                    loops_to_comprehensions(fn, r, stats, key)
                     vote_rename_webs(fn, r, stats, key)
                     k = inline_new_temps(fn, r, stats, key)
                     if loops_to_comprehensions(fn, r, stats, key):
